@@ -52,8 +52,10 @@ properties! {
     "C12" => c12,
     "C13" => c13,
     "C14" => c14,
+    "C15" => c15,
     "C16" => c16,
     "C18" => c18,
+    "C20" => c20,
 }
 
 pub fn probes(ctx: &Ctx, id: &str) -> Vec<Probe> {
@@ -61,11 +63,16 @@ pub fn probes(ctx: &Ctx, id: &str) -> Vec<Probe> {
         "C03" => c03::probes(ctx),
         "C09" => c09::probes(ctx),
         "C12" => c12::probes(ctx),
+        "C15" => c15::probes(ctx),
         "C18" => c18::probes(ctx),
+        "C20" => c20::probes(ctx),
         _ => vec![],
     }
 }
 
-pub fn child_main(_args: &[String]) -> i32 {
-    2
+pub fn child_main(args: &[String]) -> i32 {
+    match args.first().map(|s| s.as_str()) {
+        Some("load") => c15::child_load(&args[1..]),
+        _ => 2,
+    }
 }
